@@ -726,51 +726,130 @@ def enumerate_strings(ctx, f):
 
 
 # ------------------------------------------------------------------- R25
+def _filter_roles(g):
+    """Which parameter of a form-lookup function restricts the *format*
+    (basic/extended: the key of the outer map) and which the *type*
+    (complete/reduced/truncated: the key of the inner map), and with which
+    polarity: {"format": (param, "exclude"|"include"), "type": ...}.  Read
+    off the loops: a parameter tested for membership of a loop key excludes
+    (``if key in p: continue``) or includes; a parameter that is itself
+    iterated to subscript the map includes."""
+    roles = {}
+    params = set(g.call_params)
+    loops = [n for n in walk_no_nested(g.node) if isinstance(n, ast.For)]
+
+    def depth(n):
+        d = 0
+        q = parent(n)
+        while q is not None and q is not g.node:
+            if isinstance(q, ast.For):
+                d += 1
+            q = parent(q)
+        return d
+
+    def key_var(lp):
+        t = lp.target
+        if isinstance(t, ast.Tuple) and t.elts and isinstance(
+                t.elts[0], ast.Name) and U(lp.iter).endswith(".items()"):
+            return t.elts[0].id
+        if isinstance(t, ast.Name):
+            return t.id
+        return None
+    for lp in loops:
+        kv = key_var(lp)
+        if kv is None:
+            continue
+        it = lp.iter
+        over_self_map = "self." in U(it) and "_map" in U(it)
+        d = depth(lp)
+        role = None
+        if over_self_map and d == 0:
+            role = "format"
+        elif d == 1 and not over_self_map:
+            role = "type"
+        if isinstance(it, ast.Name) and it.id in params:
+            # the parameter is iterated: inclusion list for the key it
+            # then subscripts
+            subs = any(isinstance(x, ast.Subscript) and isinstance(
+                x.slice, ast.Name) and x.slice.id == kv
+                for x in ast.walk(lp))
+            if subs:
+                r_ = "format" if d == 0 else "type"
+                roles.setdefault(r_, (it.id, "include"))
+            continue
+        if role is None:
+            continue
+        for n in ast.walk(lp):
+            if isinstance(n, ast.Compare) and len(n.ops) == 1 and isinstance(
+                    n.ops[0], (ast.In, ast.NotIn)) and isinstance(
+                        n.left, ast.Name) and n.left.id == kv and isinstance(
+                            n.comparators[0], ast.Name) and \
+                    n.comparators[0].id in params:
+                par_if = parent(n)
+                pol = "exclude"
+                if isinstance(par_if, ast.If) and par_if.test is n:
+                    leaves = bool(par_if.body) and isinstance(
+                        par_if.body[-1], ast.Continue)
+                    is_in = isinstance(n.ops[0], ast.In)
+                    pol = "exclude" if (is_in == leaves) else "include"
+                roles.setdefault(role, (n.comparators[0].id, pol))
+    return roles
+
+
 def r25_arg_flow(ctx):
     rep = ctx.rep
     rule = "R25.restriction-flow"
     f = ctx.func("parsers.TimePointParser.get_info")
     rep.need_anchor(rule, "sibling matcher calls")
-    # the restriction variables: what the time matcher receives as
-    # bad_formats= / bad_types=
+    cls = f.cls
+    roles = {}
+    for nm in ("get_time_info", "get_time_zone_info"):
+        g = cls.methods.get(nm) if cls is not None else None
+        roles[nm] = _filter_roles(g) if g is not None else {}
+    # the restriction variables: what the time matcher receives in the
+    # format-filter / type-filter role
     var_of = {}
-    for n in walk_no_nested(f.node):
-        if isinstance(n, ast.Call) and isinstance(n.func, ast.Attribute) \
-                and n.func.attr == "get_time_zone_info":
-            # the zone matcher takes the format restriction only: the name
-            # it receives is the format-restriction variable
-            v = ctx.bound_args(f, n).get("bad_formats")
+    calls = [n for n in walk_no_nested(f.node)
+             if isinstance(n, ast.Call) and isinstance(n.func, ast.Attribute)
+             and n.func.attr in roles]
+    for n in calls:
+        b = ctx.bound_args(f, n)
+        for role, (par, _pol) in roles[n.func.attr].items():
+            v = b.get(par)
             if isinstance(v, ast.Name):
-                var_of.setdefault("bad_formats", v.id)
-    for n in walk_no_nested(f.node):
-        if isinstance(n, ast.Call) and isinstance(n.func, ast.Attribute) \
-                and n.func.attr == "get_time_info":
-            b = ctx.bound_args(f, n)
-            for k_ in ("bad_formats", "bad_types"):
-                if isinstance(b.get(k_), ast.Name) and (
-                        k_ != "bad_types" or
-                        b[k_].id != var_of.get("bad_formats")):
-                    var_of.setdefault(k_, b[k_].id)
-    for n in walk_no_nested(f.node):
-        if isinstance(n, ast.Call) and isinstance(n.func, ast.Attribute) \
-                and n.func.attr in ("get_time_info", "get_time_zone_info"):
-            rep.anchor(rule, "sibling matcher calls")
-            kw = {k_: U(v_) for k_, v_ in ctx.bound_args(f, n).items()}
-            need = ["bad_formats"] + (["bad_types"] if n.func.attr ==
-                                      "get_time_info" else [])
-            missing = [k for k in need if k not in var_of or
-                       kw.get(k) != var_of[k]]
-            rep.check(not missing, rule, ctx.fkey(f, n, "restrictions"),
-                      f.loc(n), "%s receives %s" % (n.func.attr, need),
-                      "this %s call does not pass %s: a basic date could be "
-                      "combined with an extended time/zone (or a truncated "
-                      "time accepted after a full date)" % (
-                          n.func.attr, missing), ("C07",))
-    # bad_formats is derived from the date's format key and emptied only for
-    # truncated dates
+                var_of.setdefault(role, v.id)
+    fmt_pol = {pl for r_ in roles.values() for k_, (_p, pl) in r_.items()
+               if k_ == "format"}
+    if not all("format" in roles[nm] for nm in roles) or len(fmt_pol) != 1:
+        rep.anchor(rule, "sibling matcher calls")
+        rep.undecided(rule, ctx.fkey(f, None, "bad-formats"), f.loc(),
+                      "the time / zone matchers do not both take a format "
+                      "restriction this rule can read off their loops "
+                      "(roles found: %s)" % roles, ("C07",))
+        return
+    fmt_pol = fmt_pol.pop()
+    for n in calls:
+        rep.anchor(rule, "sibling matcher calls")
+        b = ctx.bound_args(f, n)
+        need = ["format"] + (["type"] if "type" in roles[n.func.attr]
+                             else [])
+        missing = []
+        for role in need:
+            par = roles[n.func.attr][role][0]
+            if role not in var_of or U(b[par]) != var_of[role] \
+                    if par in b else True:
+                missing.append("%s (%s filter)" % (par, role))
+        rep.check(not missing, rule, ctx.fkey(f, n, "restrictions"),
+                  f.loc(n), "%s receives %s" % (n.func.attr, need),
+                  "this %s call does not pass %s: a basic date could be "
+                  "combined with an extended time/zone (or a truncated "
+                  "time accepted after a full date)" % (
+                      n.func.attr, missing), ("C07",))
+    # the format restriction is derived from the date's format key and
+    # lifted only for truncated dates
     from ..flow import alternatives
-    alts = alternatives(f.node, var_of["bad_formats"]) \
-        if "bad_formats" in var_of else None
+    alts = alternatives(f.node, var_of["format"]) \
+        if "format" in var_of else None
     literal = bool(alts) and all(
         isinstance(v, (ast.List, ast.Tuple)) and all(
             isinstance(e, ast.Constant) for e in v.elts) for v, _ in alts)
@@ -794,15 +873,23 @@ def r25_arg_flow(ctx):
                             t.ops[0], ast.Eq):
                     cond = t.comparators[0].value
                     break
-            vals[cond] = "[%s]" % ", ".join(repr(e.value) for e in v.elts)
-        good = vals.get("basic") == "['extended']" and \
-            vals.get("extended") == "['basic']" and all(
-                v != "[]" or c in (None, "truncated")
-                for c, v in vals.items())
+            vals[cond] = sorted(e.value for e in v.elts)
+        both = ["basic", "extended"]
+        if fmt_pol == "exclude":
+            good = vals.get("basic") == ["extended"] and \
+                vals.get("extended") == ["basic"] and all(
+                    v != [] or c in (None, "truncated")
+                    for c, v in vals.items())
+        else:
+            good = vals.get("basic") == ["basic"] and \
+                vals.get("extended") == ["extended"] and all(
+                    v != both or c in (None, "truncated")
+                    for c, v in vals.items())
         rep.check(good, rule, ctx.fkey(f, None, "bad-formats"), f.loc(),
                   "a basic date excludes extended times/zones and vice "
                   "versa; the restriction is lifted only for truncated dates",
-                  "bad_formats assignments are %s" % vals, ("C07",))
+                  "the format restriction (%s list) takes the values %s" % (
+                      fmt_pol, vals), ("C07",))
 
 
 # ------------------------------------------------------------------- R31
